@@ -172,9 +172,15 @@ def make_config(path, k, rewriter_name, flt, logger_box, faults, sample_rate=Non
             return lg
 
         def code_filter(self):
+            if state.get("cfg_raises") == "code_filter":
+                state["cfg_raised"] = state.get("cfg_raised", 0) + 1
+                raise RuntimeError("injected: configuration backend unavailable (code_filter)")
             return state["flt"]
 
         def sample_rate(self):
+            if state.get("cfg_raises") == "sample_rate":
+                state["cfg_raised"] = state.get("cfg_raised", 0) + 1
+                raise RuntimeError("injected: configuration backend unavailable (sample_rate)")
             return state["rate"]
 
         def max_typed_dict_size(self):
@@ -225,6 +231,8 @@ def run_sessions(plan, lp, workdir):
                 cfg = make_config(path, ses["k"], plan["rewriter"], flt, box, ses.get("faults"))
             else:
                 cfg.state.update({"k": ses["k"], "faults": ses.get("faults"), "box": box, "flt": flt})
+            # fault at session start: one of the Config hooks consulted by monkeytype.trace() raises
+            cfg.state["cfg_raises"] = (ses.get("faults") or {}).get("cfg_raises")
             s = Session()
             s.index = si
             s.k = ses["k"]
